@@ -119,6 +119,7 @@ def run_impl(case, cfg=None):
         try:
             rec["comp"][-1]["out_groups"] = [list(g) for g in ret[0]]
             rec["comp"][-1]["out_scores"] = [rat(float(x)) for x in ret[2]]
+            rec["comp"][-1]["out_infos"] = canon_infos(ret[1])
         except Exception:
             pass
         return ret
